@@ -282,7 +282,7 @@ theorem rstrip_of_lastOk (s : Str) (h : lastOk s = true) : rstrip s = s := by
     cases cs with
     | nil =>
       simp only [lastOk, Bool.not_eq_true'] at h
-      simp [rstrip_cons, rstrip, h]
+      simp [rstrip, h]
     | cons c' cs' =>
       simp only [lastOk] at h
       rw [rstrip_cons, ih h]
@@ -451,7 +451,7 @@ theorem collapse_of_noDouble (y : Str) (h : noDouble y = true) : collapse y = y 
   | case1 => rfl
   | case2 c =>
     by_cases hb : isBlank c = true
-    · simp [hb, isBlank_eq c hb]
+    · simp [isBlank_eq c hb]
     · simp [hb]
   | case3 c c' cs hb hb' ih => simp [noDouble, hb, hb'] at h
   | case4 c c' cs hb hb' ih =>
@@ -515,12 +515,12 @@ theorem parseTail_token (pairs : List Pair) (t c : Str) (ht : ∀ x ∈ t, isBla
       rw [← h.1]; exact ht b (by simp)
   have htw : (t ++ ' ' :: c).takeWhile (fun y => !isBlank y) = t := by
     rw [takeWhile_append_all _ t _ (nonblank_not t ht)]
-    simp [List.takeWhile_cons, isBlank]
+    simp [isBlank]
   have hdw : (t ++ ' ' :: c).dropWhile (fun y => !isBlank y) = ' ' :: c := by
     rw [dropWhile_append_all _ t _ (nonblank_not t ht)]
-    simp [List.dropWhile_cons, isBlank]
+    simp [isBlank]
   simp only [parseTail, List.cons_append, hd, htw, hdw]
-  simp [List.dropWhile_cons, isBlank]
+  simp [isBlank]
 
 theorem parseTail_token_end (pairs : List Pair) (t : Str) (ht : ∀ x ∈ t, isBlank x = false) :
     parseTail pairs ('-' :: t) = { pairs, g2 := some ('-' :: t), g3 := some t, g4 := none } := by
@@ -772,7 +772,7 @@ theorem ofGroups_tail_wf (pairs : List Pair) (rem : Str) (v : Bool) (hok : okRem
     ((ofGroups (parseTail pairs rem) v).software = none → (ofGroups (parseTail pairs rem) v).comments = none) ∧
     ((ofGroups (parseTail pairs rem) v).software = some [] → (ofGroups (parseTail pairs rem) v).comments = none) := by
   rcases okRem_cases rem hok with rfl | ⟨r, rfl⟩
-  · simp [parseTail, ofGroups, softwareOf, strip, rstrip, orNone, Text.startsWith, List.isPrefixOf, normComments]
+  · simp [parseTail, ofGroups, softwareOf, strip, rstrip, orNone, Text.startsWith, normComments]
   · have htokb : ∀ x ∈ (r.dropWhile isBlank).takeWhile (fun y => !isBlank y), isBlank x = false := by
       intro x hx
       simpa using takeWhile_all _ _ x hx
@@ -943,5 +943,152 @@ theorem scan_pass (h0 : List Str) (raws more : List Bytes) (hnb : ∀ r ∈ raws
       simp only [hb, hr]
       rw [e, ih' (h0 ++ [lineText r])]
       simp
+
+
+/-! ### the order on protocol items (Python's `<` on tuples of strings) -/
+
+theorem ltStr_cons (x y : Char) (xs ys : Str) :
+    Text.ltStr (x :: xs) (y :: ys) = if x < y then true else if y < x then false else Text.ltStr xs ys := by
+  simp [Text.ltStr]
+
+theorem char_eq_of_not_lt (x y : Char) (h1 : ¬ x < y) (h2 : ¬ y < x) : x = y :=
+  Char.le_antisymm (Char.not_lt.mp h2) (Char.not_lt.mp h1)
+
+theorem ltStr_irrefl (a : Str) : Text.ltStr a a = false := by
+  induction a with
+  | nil => rfl
+  | cons x xs ih => rw [ltStr_cons]; simp [ih]
+
+theorem ltStr_trans (a b c : Str) (h1 : Text.ltStr a b = true) (h2 : Text.ltStr b c = true) : Text.ltStr a c = true := by
+  induction a generalizing b c with
+  | nil =>
+    cases b with
+    | nil => simp [Text.ltStr] at h1
+    | cons y ys =>
+      cases c with
+      | nil => simp [Text.ltStr] at h2
+      | cons z zs => rfl
+  | cons x xs ih =>
+    cases b with
+    | nil => simp [Text.ltStr] at h1
+    | cons y ys =>
+      cases c with
+      | nil => simp [Text.ltStr] at h2
+      | cons z zs =>
+        rw [ltStr_cons] at h1 h2 ⊢
+        by_cases hxy : x < y
+        · by_cases hyz : y < z
+          · simp [Char.lt_trans hxy hyz]
+          · by_cases hzy : z < y
+            · simp [hyz, hzy] at h2
+            · have := char_eq_of_not_lt y z hyz hzy
+              subst this
+              simp [hxy]
+        · by_cases hyx : y < x
+          · simp [hxy, hyx] at h1
+          · have hxy' := char_eq_of_not_lt x y hxy hyx
+            subst hxy'
+            simp only [hxy, if_false] at h1
+            by_cases hyz : x < z
+            · simp [hyz]
+            · by_cases hzy : z < x
+              · simp [hyz, hzy] at h2
+              · simp only [hyz, hzy, if_false] at h2 ⊢
+                exact ih ys zs h1 h2
+
+theorem ltPair_irrefl (a : Pair) : ltPair a a = false := by
+  simp [ltPair, ltStr_irrefl]
+
+theorem ltPair_trans (a b c : Pair) (h1 : ltPair a b = true) (h2 : ltPair b c = true) : ltPair a c = true := by
+  unfold ltPair at *
+  by_cases hab : a.1 = b.1
+  · by_cases hbc : b.1 = c.1
+    · have hac : a.1 = c.1 := hab.trans hbc
+      simp only [hab, hbc, if_true] at h1 h2
+      simp only [hac, if_true]
+      exact ltStr_trans _ _ _ h1 h2
+    · simp only [hab, if_true] at h1
+      simp only [hbc, if_false, decide_eq_true_eq] at h2
+      have hac : ¬ a.1 = c.1 := by rw [hab]; exact hbc
+      simp only [hac, if_false, decide_eq_true_eq]
+      rw [hab]; exact h2
+  · simp only [hab, if_false, decide_eq_true_eq] at h1
+    by_cases hbc : b.1 = c.1
+    · have hac : ¬ a.1 = c.1 := by rw [← hbc]; exact hab
+      simp only [hac, if_false, decide_eq_true_eq]
+      rw [← hbc]; exact h1
+    · simp only [hbc, if_false, decide_eq_true_eq] at h2
+      have hlt := Char.lt_trans h1 h2
+      have hac : ¬ a.1 = c.1 := by
+        intro h; rw [h] at hlt; exact Char.lt_irrefl _ hlt
+      simp only [hac, if_false, decide_eq_true_eq]
+      exact hlt
+
+/-- `min(...)` returns an element below which there is none -/
+theorem minPair_le (p : Pair) (ps : List Pair) : ∀ q ∈ p :: ps, ltPair q (minPair p ps) = false := by
+  suffices h : ∀ (ps : List Pair) (best : Pair) (seen : List Pair), (∀ q ∈ seen, ltPair q best = false) →
+      ∀ q ∈ seen ++ ps, ltPair q (minPair best ps) = false by
+    intro q hq
+    have := h ps p [p] (by intro q hq; simp at hq; subst hq; exact ltPair_irrefl _) q (by simpa using hq)
+    exact this
+  intro ps
+  induction ps with
+  | nil => intro best seen hs q hq; simp only [minPair]; exact hs q (by simpa using hq)
+  | cons x xs ih =>
+    intro best seen hs q hq
+    simp only [minPair]
+    have hq' : q ∈ (seen ++ [x]) ++ xs := by simpa using hq
+    by_cases hx : ltPair x best = true
+    · simp only [hx, if_true]
+      apply ih x (seen ++ [x]) _ q hq'
+      intro q hq
+      rcases List.mem_append.mp hq with h | h
+      · cases hqx : ltPair q x with
+        | false => rfl
+        | true =>
+          have := ltPair_trans q x best hqx hx
+          rw [hs q h] at this
+          exact absurd this (by simp)
+      · simp at h; subst h; exact ltPair_irrefl _
+    · simp only [hx]
+      apply ih best (seen ++ [x]) _ q hq'
+      intro q hq
+      rcases List.mem_append.mp hq with h | h
+      · exact hs q h
+      · simp at h; subst h; simpa using hx
+
+/-! ### comments as words -/
+
+theorem rstrip_append_blanks (x : Str) (k : Nat) : rstrip (x ++ List.replicate k ' ') = rstrip x := by
+  have hb : ∀ k, rstrip (List.replicate k ' ') = [] := by
+    intro k
+    induction k with
+    | zero => rfl
+    | succ k ih => rw [List.replicate_succ, rstrip_cons, ih]; simp [isBlank]
+  induction x with
+  | nil => simpa [rstrip] using hb k
+  | cons c cs ih => rw [List.cons_append, rstrip_cons, rstrip_cons, ih]
+
+theorem collapse_append_nonblank (w y : Str) (hw : ∀ x ∈ w, isBlank x = false) : collapse (w ++ y) = w ++ collapse y := by
+  induction w with
+  | nil => rfl
+  | cons c cs ih =>
+    rw [List.cons_append, collapse_cons_nonblank c _ (hw c (by simp)), ih (fun x hx => hw x (by simp [hx]))]
+    rfl
+
+theorem collapse_blanks (k : Nat) (c : Char) (y : Str) (hc : isBlank c = false) :
+    collapse (List.replicate (k + 1) ' ' ++ c :: y) = ' ' :: collapse (c :: y) := by
+  induction k with
+  | zero => simp [collapse, isBlank] at hc ⊢; simp [hc]
+  | succ k ih =>
+    have e : List.replicate (k + 1 + 1) ' ' ++ c :: y = ' ' :: ' ' :: (List.replicate k ' ' ++ c :: y) := by
+      simp [List.replicate_succ]
+    have e' : List.replicate (k + 1) ' ' ++ c :: y = ' ' :: (List.replicate k ' ' ++ c :: y) := by
+      simp [List.replicate_succ]
+    rw [e]
+    rw [e'] at ih
+    have hb : isBlank ' ' = true := rfl
+    rw [collapse, if_pos hb, if_pos hb]
+    exact ih
 
 end SshAudit.Banner
